@@ -1,9 +1,11 @@
 #!/bin/sh
-# builds the extracted model + driver; run from /verif/ocaml
+# builds the extracted model + driver; run from /verif/ocaml.  The new binary replaces the old one by an atomic
+# rename, so checks that are running (and spawning drivers) never see a half-written executable.
 set -e
 cd "$(dirname "$0")"
 mkdir -p _build
 cp gen/model.ml gen/model.mli driver.ml _build/
 cd _build
-ocamlfind ocamlopt -O3 -w -a -package str model.mli model.ml driver.ml -o driver 2>/dev/null || \
-ocamlfind ocamlopt -w -a model.mli model.ml driver.ml -o driver
+ocamlfind ocamlopt -O3 -w -a -package str model.mli model.ml driver.ml -o driver.new 2>/dev/null || \
+ocamlfind ocamlopt -w -a model.mli model.ml driver.ml -o driver.new
+mv -f driver.new driver
